@@ -362,6 +362,7 @@ func checkC02(p *Prog, r *Report) {
 			r.Unk("C02/WINDOW-PRESERVED", "mapStruct.ptr window reallocation", p.Pos(ptrFn.Pos()), "no `ms.window = make(...)` found: the window management changed shape, re-read it")
 		}
 	}
+	checkWindowWithinFile(p, r, ptrFn)
 	r.Trust("MD4 collision resistance (a strong match is taken as content equality, as in rsync)")
 	r.Uncovered("offset/length arithmetic of the window (mapStruct), the receiver's token*BlockLength arithmetic, chunking, rolling-checksum algebra: value-level, out of reach of structural rules")
 }
@@ -434,4 +435,167 @@ func checkWideOffsets(p *Prog, r *Report) {
 			r.Bad(rule, "receiveData → ReadAt(offset)", p.Pos(rd.Pos()), "no ReadAt of the basis file found: re-read how block references are resolved")
 		}
 	}
+}
+
+// checkWindowWithinFile: (*mapStruct).ptr turns a failed Read (EOF included)
+// into the transfer error "file has changed mid-transfer". For a file that did
+// not change, every window it tries to fill must therefore end at or before
+// the size recorded when the file was mapped. The window size that is recorded
+// (ms.pLen) is a phi of several candidates; each candidate must be either
+// `ms.fileSize - windowStart`, a min() with it, or arrive over an edge on which
+// `windowStart + candidate > ms.fileSize` is known false.
+func checkWindowWithinFile(p *Prog, r *Report, ptrFn *ssa.Function) {
+	rule := "C02/WINDOW-WITHIN-FILE"
+	r.Rule(rule, "in (*mapStruct).ptr a failed Read (EOF included) is a transfer error, so every candidate for the window size to fill is clamped to the mapped file size: it is ms.fileSize - windowStart, a min() with it, or arrives over an edge where windowStart+size > ms.fileSize is false", 2)
+	if ptrFn == nil {
+		return
+	}
+	sizeF := p.Field(pkgSender, "mapStruct", "fileSize")
+	lenF := p.Field(pkgSender, "mapStruct", "pLen")
+	if sizeF == nil || lenF == nil {
+		r.Unk(rule, "mapStruct fields", p.Pos(ptrFn.Pos()), "fields fileSize/pLen not found: the window bookkeeping changed, re-read it")
+		return
+	}
+	// does a Read error end in a non-nil error return? (otherwise EOF is tolerated and no clamp is needed)
+	eofIsError := false
+	allCalls(ptrFn, func(c ssa.CallInstruction) {
+		if !c.Common().IsInvoke() || c.Common().Method.Name() != "Read" {
+			return
+		}
+		cv, ok := c.(*ssa.Call)
+		if !ok {
+			return
+		}
+		for _, ref := range *cv.Referrers() {
+			ex, ok := ref.(*ssa.Extract)
+			if !ok || ex.Index != 1 {
+				continue
+			}
+			for _, b := range ptrFn.Blocks {
+				ret, ok := lastInstr(b).(*ssa.Return)
+				if !ok {
+					continue
+				}
+				rs := retResults(ret)
+				if len(rs) == 2 && neverNil(rs[1]) {
+					if known, isNil := errIsNilAt(ret, ex); known && !isNil {
+						eofIsError = true
+					}
+				}
+			}
+		}
+	})
+	if !eofIsError {
+		r.OK(rule, "mapStruct.ptr read loop", p.Pos(ptrFn.Pos()), "a failed Read does not end in an error return here: no clamp needed")
+		r.OK(rule, "mapStruct.ptr window size", p.Pos(ptrFn.Pos()), "(not required)")
+		return
+	}
+	r.OK(rule, "mapStruct.ptr read loop", p.Pos(ptrFn.Pos()), "a failed Read returns an error: window sizes must be clamped")
+	isSize := func(v ssa.Value) bool { return isFieldLoad(stripConv(v), sizeF) }
+	found := 0
+	for _, b := range ptrFn.Blocks {
+		for _, in := range b.Instrs {
+			st, ok := in.(*ssa.Store)
+			if !ok {
+				continue
+			}
+			if _, f := fieldOfAddr(st.Addr); f != lenF {
+				continue
+			}
+			found++
+			for _, lf := range phiEdgeLeaves(st.Val) {
+				if clampedBy(lf, isSize) {
+					continue
+				}
+				r.Bad(rule, "mapStruct.ptr window size", p.Pos(lf.leaf.Pos()), "window-size candidate `"+lf.leaf.String()+"` can extend past ms.fileSize: the read loop then hits EOF on an unchanged file and the transfer fails with \"file has changed mid-transfer\" (requests larger than the default window near the end of a file whose size is not a multiple of the alignment)")
+			}
+		}
+	}
+	if found == 0 {
+		r.Unk(rule, "mapStruct.ptr window size", p.Pos(ptrFn.Pos()), "no store to ms.pLen found: the window bookkeeping changed, re-read it")
+	} else {
+		r.OK(rule, "mapStruct.ptr window size", p.Pos(ptrFn.Pos()), "")
+	}
+}
+
+type edgeLeaf struct {
+	leaf ssa.Value
+	pred *ssa.BasicBlock // block the value leaves from
+	to   *ssa.BasicBlock // block of the phi it enters
+}
+
+// phiEdgeLeaves flattens nested phis into their non-phi leaves, remembering
+// for each leaf the CFG edge over which it enters the (innermost) phi.
+func phiEdgeLeaves(v ssa.Value) []edgeLeaf {
+	var out []edgeLeaf
+	seen := map[ssa.Value]bool{}
+	var walk func(x ssa.Value, pred, to *ssa.BasicBlock)
+	walk = func(x ssa.Value, pred, to *ssa.BasicBlock) {
+		if ph, ok := x.(*ssa.Phi); ok {
+			if seen[x] {
+				return
+			}
+			seen[x] = true
+			for i, e := range ph.Edges {
+				walk(e, ph.Block().Preds[i], ph.Block())
+			}
+			return
+		}
+		out = append(out, edgeLeaf{x, pred, to})
+	}
+	walk(v, nil, nil)
+	return out
+}
+
+// clampedBy: the leaf is `size - x`, min(.., size - x), or enters its phi over
+// an edge on which `x + leaf > size` is false (`<=` true).
+func clampedBy(lf edgeLeaf, isSize func(ssa.Value) bool) bool {
+	isSizeMinus := func(v ssa.Value) bool {
+		bo, ok := stripConv(v).(*ssa.BinOp)
+		return ok && bo.Op == token.SUB && isSize(bo.X)
+	}
+	if isSizeMinus(lf.leaf) {
+		return true
+	}
+	if c, ok := lf.leaf.(*ssa.Call); ok {
+		if bi, ok := c.Common().Value.(*ssa.Builtin); ok && bi.Name() == "min" {
+			for _, a := range c.Common().Args {
+				if isSizeMinus(a) {
+					return true
+				}
+			}
+		}
+	}
+	var facts []Fact
+	if lf.pred != nil {
+		facts = append(facts, FactsAtBlock(lf.pred)...)
+		if ifi, ok := lastInstr(lf.pred).(*ssa.If); ok && len(lf.pred.Succs) == 2 && lf.pred.Succs[0] != lf.pred.Succs[1] {
+			for k, s := range lf.pred.Succs {
+				if s == lf.to {
+					facts = append(facts, normFact(Fact{Cond: ifi.Cond, Val: k == 0, If: ifi}))
+				}
+			}
+		}
+	}
+	for _, f := range facts {
+		bo, ok := f.Cond.(*ssa.BinOp)
+		if !ok {
+			continue
+		}
+		var sum, other ssa.Value
+		var within bool // fact says sum <= size
+		switch {
+		case bo.Op == token.GTR && !f.Val, bo.Op == token.LEQ && f.Val:
+			sum, other, within = bo.X, bo.Y, true
+		case bo.Op == token.LSS && !f.Val, bo.Op == token.GEQ && f.Val:
+			sum, other, within = bo.Y, bo.X, true
+		}
+		if !within || !isSize(other) {
+			continue
+		}
+		if add, ok := stripConv(sum).(*ssa.BinOp); ok && add.Op == token.ADD && (add.X == lf.leaf || add.Y == lf.leaf) {
+			return true
+		}
+	}
+	return false
 }
